@@ -18,6 +18,22 @@ CHECKS = {
         text="Generated client programs (<=3 threads, stacks <=4 deep, nested submissions from every user-code site) are run against the unmodified library under a deterministic scheduler that pre-empts at every library source line; a wait-for cycle, a stuck client or a client still inside an API call after 10^4 virtual seconds is a violation. Exhaustive over single pre-emption placements of the catalogue programs; sampled elsewhere.",
         design_ref="DESIGN.md section 4 (C04), section 2",
         note=ENGINE_NOTE),
+    "C01": dict(
+        category="exploration",
+        technique="model-based property testing: Hypothesis-drawn layer stacks x outcome scripts x submitter threads x tapes under the deterministic scheduler, compared with a sequential reference interpreter of the stack",
+        text="Random stacks (all seven layer types, any order, depth<=6, sync or thread-pool base) receive 2-6 tagged submissions from 1-3 threads under generated schedules; every non-cancelled future must carry exactly the outcome, invocation count, arguments and exception identity that lib/models.py computes sequentially; layer-function call counts must add up.",
+        design_ref="DESIGN.md section 4 (C01)", note=ENGINE_NOTE),
+    "C02": dict(
+        category="exploration",
+        technique="history-invariant property testing: exhaustive single-pre-emption sweeps over (entry point x operation x completion kind) + Hypothesis-drawn multi-thread histories with tapes; oracle = Future-protocol invariants over the totally ordered event history",
+        text="For 24 future-producing entry points (each executor future class in each life stage, each f_* combinator) generated histories of cancel/add_done_callback/result/exception/wait/as_completed from up to 3 threads race with completion by value, exception or cancellation. Invariants: cancel() contract, immutable terminal outcome, every callback exactly once and only when done, every waiter released at the instant the future becomes terminal (virtual clock).",
+        design_ref="DESIGN.md section 4 (C02)", note=ENGINE_NOTE),
+    "C03": dict(
+        category="exploration",
+        technique="property-based testing with a virtual clock: exhaustive single-pre-emption sweeps of producer-vs-worker-loop micro-programs with explicit 'done by virtual time T' expectations, external cancellation of inner futures, and Hypothesis-drawn stacks bounded by the timed reference model",
+        text="Each catalogue program states when each future must be done given the configured retry delays / poll intervals / timeouts (all shorter than the 2 s / 30 s fallback timers); every single pre-emption placement is executed, so a lost wake-up shows up as a completion at +2 s/+30 s/+interval or never. Cancelling the delegate/inner/input future behind the back of every layer type and combinator must leave the derived future done.",
+        design_ref="DESIGN.md section 4 (C03)", note=ENGINE_NOTE),
+
     "C17": dict(
         category="exploration", engine="plain",
         technique="differential property-based testing: operator on f_proxy(f_return(v)) vs operator on v over an enumerated value pool and Hypothesis-drawn recursive values; virtual-clock cases for the timeout clause",
